@@ -20,8 +20,8 @@ RULE = ("a case is one schedule: 2-4 participants (processes; some with 2 thread
         "short script of cached calls with equal / different arguments (optionally with a cache_validation_callback that rejects "
         "entries, or from another source version of the function, so that calls themselves invalidate and clear), call_and_shelve, reduce_size(items_limit 0|1), "
         "Memory.clear or func.clear, on a cold or warm, compressed or plain store; wrappers are created sequentially, then "
-        "the coordinator picks which participant performs its next file-system call (PCT-like with <= 3 pre-emptions, or "
-        "random walk); distinct_nontrivial counts distinct schedules (hash of the granted (participant, op, file) sequence) "
+        "the coordinator picks which participant performs its next file-system call (PCT-like with <= 3 pre-emptions, "
+        "random walk, or - in the 'refill' scenario - an adversary that lets another participant store a new entry in the function's directory each time participant 0 is about to rmdir it); distinct_nontrivial counts distinct schedules (hash of the granted (participant, op, file) sequence) "
         "in which at least two participants were interleaved")
 ASSUMPTIONS = [
     "only exceptions escaping cached calls (and wrong values) are violations; exceptions inside clear()/reduce_size() "
@@ -30,8 +30,8 @@ ASSUMPTIONS = [
     "file-system calls are serialised by the coordinator: races inside one call's kernel execution are not explored",
 ]
 SHARDS = {"quick": 12, "thorough": 14}
-FLOORS = {"quick": {"schedules": 200, "distinct_schedules": 150, "cached_calls_observed": 800, "preemption_points": 8},
-          "thorough": {"schedules": 5000, "distinct_schedules": 3500, "cached_calls_observed": 30000, "preemption_points": 12}}
+FLOORS = {"quick": {"schedules": 200, "distinct_schedules": 150, "cached_calls_observed": 800, "preemption_points": 8, "refill_schedules": 6, "directory_refilled_before_its_rmdir": 4},
+          "thorough": {"schedules": 5000, "distinct_schedules": 3500, "cached_calls_observed": 30000, "preemption_points": 12, "refill_schedules": 150, "directory_refilled_before_its_rmdir": 100}}
 PART = os.path.join(harness.VERIF, "checks", "c11_part.py")
 
 FUNCS = '''
@@ -72,8 +72,42 @@ def cases(tier, seed):
         yield dict(i=i)
 
 
+def refill_policy(rng, state):
+    """adversary for 'directory being removed while others fill it': whenever participant 0 is about to rmdir the
+    function's directory, another participant is first allowed to create a new entry in it (up to 6 times)"""
+    import re
+    entry = re.compile(r"/f/[0-9a-f]{32}$")
+
+    def policy(cands):
+        a = [k for k, c in enumerate(cands) if c[0] == 0 and c[2] == "rmdir" and c[3].rstrip("/").endswith("/c11funcs/f")]
+        others = [k for k, c in enumerate(cands) if c[0] != 0]
+        if not a:
+            for k in others:
+                pass
+            return None
+        if state.get("filled") or not others or state.get("refills", 0) >= 6 or state.get("waited", 0) > 60:
+            state["refills"] = state.get("refills", 0) + (1 if state.get("filled") else 0)
+            state["filled"] = False
+            state["waited"] = 0
+            return a[0]
+        k = rng.choice(others)
+        state["waited"] = state.get("waited", 0) + 1
+        if cands[k][2] == "mkdir" and entry.search(cands[k][3].rstrip("/")):
+            state["filled"] = True
+        return k
+    return policy
+
+
 def gen_roles(rng):
     r0 = rng.random()
+    if r0 < 0.06:
+        # refill: participant 0's first call finds other code recorded and wipes the function directory while the others
+        # keep storing new entries in it
+        compress = rng.random() < 0.3
+        roles = [dict(kind="caller", ops=[["call", 1], ["call", 2]], compress=compress, threads=1, version="v2", refill=True)]
+        for _ in range(rng.choice([1, 2])):
+            roles.append(dict(kind="caller", ops=[["call", x] for x in rng.sample(range(10, 40), rng.randint(5, 8))], compress=compress, threads=1, version="v2"))
+        return roles
     if r0 < 0.22:
         # invalidation duel: every participant rejects / finds outdated what the others stored - entries are cleared
         # (validation callback) or the whole function directory is wiped (other source version) while others use them
@@ -127,7 +161,7 @@ def gen_roles(rng):
 def run_case(case, ctx):
     rng = harness.rng_for(ctx.seed, ID, case["i"])
     roles = gen_roles(rng)
-    warm = rng.random() < 0.5 and not any(r["kind"] == "observer" for r in roles)
+    warm = (rng.random() < 0.5 and not any(r["kind"] == "observer" for r in roles)) or any(r.get("refill") for r in roles)
     strategy = rng.choice(["pct", "pct", "walk"])
     work = harness.mkscratch("vjl-c11-")
     try:
@@ -146,7 +180,14 @@ def run_case(case, ctx):
                 ctx.inconclusive("warm-up-failed", r["err"][-400:])
                 return
         argvs = [[PART, json.dumps(role), root, os.path.join(work, f"out{i}.json")] for i, role in enumerate(roles)]
-        res = fssched.run_schedule(rng, argvs, root, work, strategy=strategy, est_len=rng.choice([40, 80, 150]))
+        pstate = {}
+        refill = any(r.get("refill") for r in roles)
+        res = fssched.run_schedule(rng, argvs, root, work, strategy=strategy, est_len=rng.choice([40, 80, 150]),
+                                   policy=refill_policy(rng, pstate) if refill else None)
+        if refill:
+            ctx.count("refill_schedules")
+            ctx.count("directory_refilled_before_its_rmdir", pstate.get("refills", 0))
+            ctx.maxi("max_refills_in_one_schedule", pstate.get("refills", 0))
         ctx.evaluated()
         ctx.count("schedules")
         desc = dict(roles=[dict(kind=r["kind"], ops=r["ops"], threads=r["threads"], validation=r.get("validation"), version=r.get("version", "v1")) for r in roles], warm=warm, strategy=strategy,
